@@ -1912,7 +1912,7 @@ def exact_unit_division(run, R="ALIGN"):
             n += 1
             if key not in rems:
                 bad.append("%s (%s)" % (f.loc(st["span"]), f.id.rsplit("::", 1)[-1]))
-    run.check(n >= 2 and not bad, R, R + "|unit-division|exact", "-", "every division by a bank's address unit has the remainder of the same operands taken next to it (%d site(s))" % n,
+    run.check(n >= 1 and not bad, R, R + "|unit-division|exact", "-", "every division by a bank's address unit has the remainder of the same operands taken next to it (%d site(s))" % n,
               "a bit position or size is divided by the bank's address unit without the remainder being looked at: %s: an item that ends inside an address unit is rounded down (a full bank plus a 4-bit item passes the range test; `#align` after a 4-bit item pads from the rounded position)" % (", ".join(bad) or "division sites not found"))
 
 
@@ -1988,9 +1988,9 @@ def smallest_by_resolved_size(run, R="REJ"):
     if f is None:
         return
     fam = [g for g in run.prog.real_fns() if (g.raw.get("root") or g.id) == f.id]
-    reads_size = sum(1 for g in fam if g.kind == "Closure" and '"name": "size"' in json.dumps(g.raw.get("blocks")))
+    reads_size = sum(json.dumps(g.raw.get("blocks")).count('"name": "size"') for g in fam)
     static = [g.loc() for g in fam if '"name": "encoding_size"' in json.dumps(g.raw.get("blocks"))]
-    run.check(reads_size >= 2 and not static, R, R + "|smallest|by-resolved-size", f.loc(), "the smallest encoding is chosen by the sizes of the resolved encodings (%d reader(s))" % reads_size,
+    run.check(reads_size >= 1 and not static, R, R + "|smallest|by-resolved-size", f.loc(), "the smallest encoding is chosen by the sizes of the resolved encodings (%d reader(s))" % reads_size,
               "resolve_encoding chooses the smallest candidate by the size the matcher pre-computed from the rule text (%s): that size is 0 whenever it is not statically computable (a production that calls a function), so a longer encoding wins over a shorter one" % (", ".join(static) or "readers of the resolved size not found"))
 
 
